@@ -423,6 +423,20 @@ fn string_from_utf8''')]},
      'edits': [(COMP, "        self.loop_stack.last().copied()", "        self.loop_stack.first().copied()")]},
     {'name': 'E3 while loops back to after the condition', 'prop': 'C05', 'expect': 'E3 / while_statement',
      'edits': [(COMP, "        self.compiler_mut().push_loop();\n        let loop_start = self.chunk().code.len();\n\n        self.expression();", "        self.compiler_mut().push_loop();\n\n        self.expression();\n        let loop_start = self.chunk().code.len();")]},
+    # ---- C07 ----------------------------------------------------------------------------------------
+    {'name': 'K1 invoke skips instance fields', 'prop': 'C07', 'expect': 'K1 / x.m(..) and x.m agree on look-up tables',
+     'edits': [(VM, "            Value::ObjInstance(instance) => {\n                if let Some(value) = instance.borrow().fields.get(&name) {\n                    self.poke(arg_count, *value);\n                    return self.call_value(*value, arg_count);\n                }\n                instance.borrow().class\n            }",
+                "            Value::ObjInstance(instance) => instance.borrow().class,")]},
+    {'name': 'K1 missing method raises a different error when invoked', 'prop': 'C07', 'expect': 'K1 / x.m(..) and x.m agree on error kinds',
+     'edits': [(VM, "        let err = error!(ErrorKind::AttributeError, \"Undefined property '{}'.\", *name);\n        self.try_handle_error(err)\n    }\n\n    #[inline(always)]\n    fn invoke(",
+                "        let err = error!(ErrorKind::NameError, \"Undefined property '{}'.\", *name);\n        self.try_handle_error(err)\n    }\n\n    #[inline(always)]\n    fn invoke(")]},
+    {'name': 'K1 property access on modules ignores attributes', 'prop': 'C07', 'expect': 'K1 / ',
+     'edits': [(VM, "        if let Some(module) = self.peek(0).try_as_obj_module() {\n            if let Some(&property) = module.borrow().attributes.get(&name) {\n                self.pop();\n                self.push(property);\n                return Ok(());\n            }\n        }\n", "")]},
+    {'name': 'K2 parent methods overwrite own methods in ObjClass::new', 'prop': 'C07', 'expect': 'K2 / ObjClass::new',
+     'edits': [(OBJ, "        let mut merged_methods = if let Some(parent) = superclass {\n            parent.methods.clone()\n        } else {\n            new_obj_string_value_map()\n        };\n        for (&k, &v) in &methods {\n            merged_methods.insert(k, v);\n        }",
+                "        let mut merged_methods = new_obj_string_value_map();\n        for (&k, &v) in &methods {\n            merged_methods.insert(k, v);\n        }\n        if let Some(parent) = superclass {\n            for (&k, &v) in &parent.methods {\n                merged_methods.insert(k, v);\n            }\n        }")]},
+    {'name': 'K2 Inherit no longer copies the superclass methods', 'prop': 'C07', 'expect': 'K2 / inherit_impl',
+     'edits': [(VM, "        for (name, method) in &superclass.methods {\n            self.working_class_def\n                .as_mut()\n                .unwrap()\n                .class\n                .methods\n                .insert(*name, *method);\n        }\n", "")]},
 ]
 
 BENIGN = [
